@@ -55,6 +55,8 @@ type Harness struct {
 
 // RunSpec selects generation (Ops == nil) or replay.
 type RunSpec struct {
+	BatchSeed uint64
+	RunIndex  uint64
 	Seed    uint64
 	Tier    string
 	Prop    string
@@ -129,6 +131,7 @@ func runInside(t *testing.T, h *Harness, spec RunSpec) (res Result) {
 	_ = wall
 	env := newEnv(t, spec.Seed, spec.Tier, spec.Prop, spec.Known, spec.KeepLog)
 	env.Start = time.Now()
+	env.BatchSeed, env.RunIndex = spec.BatchSeed, spec.RunIndex
 	res.Seed = spec.Seed
 	// Every unseeded-by-default random source inside tendermint is re-seeded per run.
 	mrand.Seed(int64(spec.Seed >> 1))
